@@ -36,13 +36,19 @@ pub struct WsCase {
     /// initial batch: files submitted through `update_files_by_uri` (indices), all with variant 0
     pub initial: Vec<usize>,
     pub ops: Vec<AOp>,
+    /// C10: content of the add-then-remove probe file (default: last variant of file 0)
+    pub probe: Option<String>,
 }
 
 impl WsCase {
+    pub fn probe_text(&self) -> String {
+        self.probe.clone().unwrap_or_else(|| self.files[0].1.last().cloned().unwrap_or_default())
+    }
     pub fn to_json(&self) -> Value {
         json!({
             "files": self.files.iter().map(|(n, v)| json!({"name": n, "variants": v})).collect::<Vec<_>>(),
             "initial": self.initial,
+            "probe": self.probe,
             "ops": self.ops.iter().map(|o| match o {
                 AOp::Update(i, v) => json!(["update", i, v]),
                 AOp::Resubmit(i) => json!(["resubmit", i]),
@@ -71,7 +77,7 @@ impl WsCase {
                 _ => return None,
             });
         }
-        Some(WsCase { files, initial, ops })
+        Some(WsCase { files, initial, ops, probe: v["probe"].as_str().map(|s| s.to_string()) })
     }
 }
 
@@ -326,9 +332,11 @@ const CLASSES: &[&str] = &["Ca", "Cb"];
 const GLOBALS: &[&str] = &["Ga", "Gb"];
 
 /// one content piece; `k` = file index (used in docs so that contributions of different files differ)
-fn piece(rng: &mut Rng, k: usize, nfiles: usize) -> String {
-    let c = *rng.pick(CLASSES);
-    let g = *rng.pick(GLOBALS);
+fn piece(rng: &mut Rng, k: usize, nfiles: usize, disjoint: bool) -> String {
+    // `disjoint`: every file declares its own classes / globals (no symbol is declared in two files)
+    let c_owned = if disjoint { format!("{}{k}", rng.pick(CLASSES)) } else { rng.pick(CLASSES).to_string() };
+    let g_owned = if disjoint { format!("{}{k}", rng.pick(GLOBALS)) } else { rng.pick(GLOBALS).to_string() };
+    let (c, g) = (c_owned.as_str(), g_owned.as_str());
     let other = rng.below(nfiles);
     // split classes are declared `(partial)` in every file (the documented way); a plain duplicate
     // declaration (a `duplicate-type` diagnostic) is kept as a rare malformed case
@@ -344,8 +352,8 @@ fn piece(rng: &mut Rng, k: usize, nfiles: usize) -> String {
         5 => format!("--- global fn doc f{k}\nfunction {g}fn() return {k} end\n"),
         6 => format!("{g} = {g} or {{}}\n{g}.field{k} = {k}\n"),
         7 => format!("local m{k} = require(\"f{other}\")\nlocal v{k} = m{k}.value\nprint(v{k})\n"),
-        8 => format!("---@alias Al{} string|integer\n", rng.below(2)),
-        9 => format!("---@enum En{}\nlocal En = {{ A = 1, B = {k} }}\n", rng.below(2)),
+        8 => format!("---@alias Al{}{} string|integer\n", rng.below(2), if disjoint { format!("_{k}") } else { String::new() }),
+        9 => format!("---@enum En{}{}\nlocal En = {{ A = 1, B = {k} }}\n", rng.below(2), if disjoint { format!("_{k}") } else { String::new() }),
         10 => format!("---@class {pc}\n---@operator add({c}): {c}\n"),
         11 => format!("---@diagnostic disable-next-line: undefined-global\nprint(undefinedG{k})\nprint(undefinedH{k})\n"),
         12 => format!("---@diagnostic disable: unused\nlocal unused{k} = 1\n"),
@@ -355,10 +363,10 @@ fn piece(rng: &mut Rng, k: usize, nfiles: usize) -> String {
     }
 }
 
-fn gen_text(rng: &mut Rng, k: usize, nfiles: usize, module: bool) -> String {
+fn gen_text(rng: &mut Rng, k: usize, nfiles: usize, module: bool, disjoint: bool) -> String {
     let mut s = String::new();
     for _ in 0..rng.range(1, 4) {
-        s.push_str(&piece(rng, k, nfiles));
+        s.push_str(&piece(rng, k, nfiles, disjoint));
         s.push('\n'); // a blank line: a trailing doc block must not attach to the next piece's statement
     }
     if module {
@@ -368,16 +376,25 @@ fn gen_text(rng: &mut Rng, k: usize, nfiles: usize, module: bool) -> String {
 }
 
 pub fn gen_files(rng: &mut Rng) -> Vec<(String, Vec<String>)> {
+    gen_files_probe(rng).0
+}
+
+/// files + a probe text (a further file of the same kind; in disjoint mode with its own symbols)
+pub fn gen_files_probe(rng: &mut Rng) -> (Vec<(String, Vec<String>)>, String) {
     let n = rng.range(2, 4);
-    (0..n)
+    let disjoint = rng.chance(1, 2);
+    let files = (0..n)
         .map(|k| {
             let module = rng.chance(1, 2);
             let nv = rng.range(2, 3);
-            let vs = (0..nv).map(|_| gen_text(rng, k, n, module)).collect();
+            let vs = (0..nv).map(|_| gen_text(rng, k, n, module, disjoint)).collect();
             let name = if rng.chance(1, 5) { format!("lib/f{k}.lua") } else { format!("f{k}.lua") };
             (name, vs)
         })
-        .collect()
+        .collect();
+    let probe_module = rng.chance(1, 2);
+    let probe = gen_text(rng, n, n, probe_module, disjoint);
+    (files, probe)
 }
 
 pub fn queries(files: &[(String, Vec<String>)]) -> Vec<String> {
